@@ -25,9 +25,10 @@ impl Agg {
         self.frames += 1;
         *self.per_class.entry(v.class.clone()).or_insert(0) += 1;
         if !self.shapes.contains(&v.shape) {
-            if self.sample.len() < 4 {
-                self.sample.push((v.shape.clone(), crate::sim::hex(frame)));
-            }
+            // the four smallest (shape, frame) pairs: independent of the order of arrival
+            self.sample.push((v.shape.clone(), crate::sim::hex(frame)));
+            self.sample.sort();
+            self.sample.truncate(4);
             self.shapes.insert(v.shape.clone());
         }
         if let Some(u) = &v.undecodable {
